@@ -88,6 +88,11 @@ func ApplyPerRPCCreds(ctx context.Context, copts *CallOptions, uri string, isCha
 		}
 		md, err := copts.Creds.GetRequestMetadata(ctx, uri)
 		if err != nil {
+			if ctxErr := ctx.Err(); ctxErr != nil {
+				// the lookup gave up because the RPC was cancelled or timed
+				// out: that is what the caller is told, as a status
+				return nil, TranslateContextError(ctxErr)
+			}
 			return nil, err
 		}
 		if len(md) > 0 {
